@@ -186,6 +186,46 @@ func checkC17(c *Check) {
 			"read-before-change-in-statement":  {fn("change", []Param{{"p", TString}}, []Type{TString}, Write{Path: vr("p"), Data: sl("new")}, ret(sl("changed"))), Write{Path: sl("doc.txt"), Data: sl("old")}, pr(framed(Read{sl("doc.txt")}), call("change", sl("doc.txt")), framed(Read{sl("doc.txt")})), def("joined", bin("+", bin("+", Read{sl("doc.txt")}, call("change", sl("doc.txt"))), Read{sl("doc.txt")})), pr(vr("joined"))},
 			"sequence-of-nested":    {Write{Path: sl("one.txt"), Data: call("logged", sl("p"))}, Write{Path: sl("two.txt"), Data: call("logged", sl("q"))}, Write{Path: sl("one.txt"), Data: call("logged", sl("r")), Append: bl(true)}, pr(framed(Read{sl("one.txt")}), framed(Read{sl("two.txt")}), framed(Read{sl("log file.txt")}))},
 		}
+		// one textual site executed several times: every execution reports the state at its own time
+		get := fn("get", []Param{{"p", TString}}, []Type{TString}, ret(Read{vr("p")}))
+		show := fn("show", []Param{{"p", TString}}, nil, def("s", Read{vr("p")}), pr(framed(vr("s"))))
+		for f := 0; f < nLoopForms; f += 2 {
+			nested[fmt.Sprintf("site-repeated/read-in-loop/form%d", f)] = append(loopForm(f, "i", 3, []Stmt{Write{Path: sl("loop.txt"), Data: bin("+", sl("n"), Itoa{vr("i")})}, pr(sl("L"), framed(Read{sl("loop.txt")}))}), pr(framed(Read{sl("loop.txt")})))
+			nested[fmt.Sprintf("site-repeated/read-different-paths-in-loop/form%d", f)] = append(append([]Stmt{Write{Path: sl("f0.txt"), Data: sl("zero\nzero")}, Write{Path: sl("f1.txt"), Data: sl("long content one")}, Write{Path: sl("f2.txt"), Data: sl("two")}, Write{Path: sl("f3.txt"), Data: sl("")}}, loopForm(f, "i", 3, []Stmt{def("c", Read{bin("+", bin("+", sl("f"), Itoa{vr("i")}), sl(".txt"))}), pr(framed(vr("c")))})...))
+			nested[fmt.Sprintf("site-repeated/append-in-loop/form%d", f)] = append(loopForm(f, "i", 3, []Stmt{Write{Path: sl("acc.txt"), Data: bin("+", sl("row "), Itoa{vr("i")}), Append: bl(true)}}), pr(framed(Read{sl("acc.txt")})))
+			nested[fmt.Sprintf("site-repeated/exists-in-loop/form%d", f)] = loopForm(f, "i", 3, []Stmt{pr(Exists{sl("e.txt")}), ifs(cmp("==", vr("i"), il(2)), Write{Path: sl("e.txt"), Data: sl("x")})})
+			nested[fmt.Sprintf("site-repeated/read-accumulated/form%d", f)] = append(append([]Stmt{def("total", sl(""))}, loopForm(f, "i", 3, []Stmt{Write{Path: sl("t.txt"), Data: Itoa{vr("i")}}, set("total", bin("+", bin("+", vr("total"), Read{sl("t.txt")}), sl(",")))})...), pr(vr("total")))
+		}
+		nested["site-repeated/read-in-function-called-thrice"] = []Stmt{get, Write{Path: sl("a.txt"), Data: sl("content of a")}, Write{Path: sl("b.txt"), Data: sl("b")}, pr(framed(call("get", sl("a.txt")))), pr(framed(call("get", sl("b.txt")))), Write{Path: sl("a.txt"), Data: sl("")}, pr(framed(call("get", sl("a.txt")))), pr(framed(call("get", sl("b.txt"))), framed(call("get", sl("a.txt"))))}
+		nested["site-repeated/read-to-variable-in-function"] = []Stmt{show, Write{Path: sl("s.txt"), Data: sl("a long first content")}, callS("show", sl("s.txt")), Write{Path: sl("s.txt"), Data: sl("short")}, callS("show", sl("s.txt")), Write{Path: sl("s.txt"), Data: sl("")}, callS("show", sl("s.txt")), Write{Path: sl("s.txt"), Data: sl("x\ny")}, callS("show", sl("s.txt"))}
+		nested["site-repeated/write-in-function-called-thrice"] = []Stmt{fn("put", []Param{{"p", TString}, {"s", TString}}, nil, Write{Path: vr("p"), Data: vr("s")}, pr(sl("put"), framed(Read{vr("p")}))), callS("put", sl("w1.txt"), sl("one")), callS("put", sl("w 2.txt"), sl("two")), callS("put", sl("w1.txt"), sl("")), pr(framed(Read{sl("w1.txt")}), framed(Read{sl("w 2.txt")}))}
+		// blocks that hold nothing but file operations
+		put := fn("put", []Param{{"p", TString}, {"s", TString}}, nil, Write{Path: vr("p"), Data: vr("s")})
+		app := fn("app", []Param{{"p", TString}, {"s", TString}}, nil, Write{Path: vr("p"), Data: vr("s"), Append: bl(true)})
+		nested["only-writes/function-bodies"] = []Stmt{put, app, callS("put", sl("notes a.txt"), sl("header")), pr(Exists{sl("notes a.txt")}, framed(Read{sl("notes a.txt")})), callS("app", sl("notes a.txt"), sl("line 1")), pr(framed(Read{sl("notes a.txt")})), callS("put", sl("notes-b.txt"), sl("it's 100% *")), callS("app", sl("notes-b.txt"), sl("row")), pr(framed(Read{sl("notes-b.txt")}))}
+		nested["only-writes/function-two-writes"] = []Stmt{fn("both", nil, nil, Write{Path: sl("b1.txt"), Data: sl("one")}, Write{Path: sl("b2.txt"), Data: sl("two"), Append: bl(true)}), callS("both"), callS("both"), pr(framed(Read{sl("b1.txt")}), framed(Read{sl("b2.txt")}))}
+		nested["only-writes/if-body"] = []Stmt{ifs(Not{Exists{sl("h.txt")}}, Write{Path: sl("h.txt"), Data: sl("header")}), ifs(Not{Exists{sl("h.txt")}}, Write{Path: sl("h.txt"), Data: sl("again")}), pr(framed(Read{sl("h.txt")}))}
+		nested["only-writes/else-body"] = []Stmt{If{Branches: []IfBranch{{Exists{sl("g.txt")}, []Stmt{Write{Path: sl("g.txt"), Data: sl("more"), Append: bl(true)}}}}, Else: []Stmt{Write{Path: sl("g.txt"), Data: sl("first")}}, HasElse: true}, If{Branches: []IfBranch{{Exists{sl("g.txt")}, []Stmt{Write{Path: sl("g.txt"), Data: sl("more"), Append: bl(true)}}}}, Else: []Stmt{Write{Path: sl("g.txt"), Data: sl("first")}}, HasElse: true}, pr(framed(Read{sl("g.txt")}))}
+		nested["only-writes/elseif-body"] = []Stmt{def("k", il(2)), If{Branches: []IfBranch{{cmp("==", vr("k"), il(1)), []Stmt{Write{Path: sl("k.txt"), Data: sl("one")}}}, {cmp("==", vr("k"), il(2)), []Stmt{Write{Path: sl("k.txt"), Data: sl("two")}}}}, Else: []Stmt{Write{Path: sl("k.txt"), Data: sl("other")}}, HasElse: true}, pr(Exists{sl("k.txt")}), pr(framed(Read{sl("k.txt")}))}
+		nested["only-writes/switch-case-body"] = []Stmt{def("k", il(2)), Switch{Tag: vr("k"), Cases: []SwitchCase{{E: il(1), Body: []Stmt{Write{Path: sl("sw.txt"), Data: sl("one")}}}, {E: il(2), Body: []Stmt{Write{Path: sl("sw.txt"), Data: sl("two")}}}, {Default: true, Body: []Stmt{Write{Path: sl("sw.txt"), Data: sl("other")}}}}}, pr(Exists{sl("sw.txt")}), pr(framed(Read{sl("sw.txt")})), Switch{Tag: il(9), Cases: []SwitchCase{{E: il(1), Body: []Stmt{Write{Path: sl("sw.txt"), Data: sl("one")}}}, {Default: true, Body: []Stmt{Write{Path: sl("sw.txt"), Data: sl("dflt"), Append: bl(true)}}}}}, pr(framed(Read{sl("sw.txt")}))}
+		nested["only-writes/nested-blocks"] = []Stmt{ifs(bl(true), ifs(bl(true), Write{Path: sl("deep.txt"), Data: sl("deep")})), pr(Exists{sl("deep.txt")}), pr(framed(Read{sl("deep.txt")}))}
+		for f := 0; f < nLoopForms; f++ {
+			if f == 1 || f == 2 || f == 4 || f == 5 {
+				continue // these forms put the counter update into the body
+			}
+			nested[fmt.Sprintf("only-writes/loop-body/form%d", f)] = append(loopForm(f, "i", 3, []Stmt{Write{Path: sl("rows.txt"), Data: sl("row"), Append: bl(true)}}), pr(Exists{sl("rows.txt")}), pr(framed(Read{sl("rows.txt")})))
+		}
+		nested["only-writes/range-body"] = []Stmt{def("names", SliceLit{Elem: TString, Elems: []Expr{sl("r1.txt"), sl("r 2.txt")}}), For{Kind: ForRange, RangeIdx: "ix", RangeVal: "nm", Over: vr("names"), Body: []Stmt{Write{Path: vr("nm"), Data: sl("ranged")}}}, pr(Exists{sl("r1.txt")}, Exists{sl("r 2.txt")}), pr(framed(Read{sl("r 2.txt")}))}
+		// order of effects inside one write statement: path, then data, then flag
+		ensure := fn("ensure", []Param{{"p", TString}}, []Type{TString}, ifs(Not{Exists{vr("p")}}, Write{Path: vr("p"), Data: sl("empty")}, pr(sl("created"), vr("p"))), ret(vr("p")))
+		yn := fn("yn", []Param{{"b", TBool}}, []Type{TString}, ifs(vr("b"), ret(sl("yes"))), ret(sl("no")))
+		nextId := fn("nextId", nil, []Type{TString}, def("n", il(0)), ifs(Exists{sl("counter")}, set("n", Len{Read{sl("counter")}})), Write{Path: sl("counter"), Data: sl("x"), Append: bl(true)}, ret(Itoa{vr("n")}))
+		nested["argument-order/path-effect-seen-by-data-read"] = []Stmt{ensure, Write{Path: call("ensure", sl("log x.txt")), Data: bin("+", Read{sl("log x.txt")}, sl("!")), Append: bl(true)}, pr(framed(Read{sl("log x.txt")}))}
+		nested["argument-order/path-effect-seen-by-data-exists"] = []Stmt{ensure, yn, Write{Path: call("ensure", sl("q.txt")), Data: call("yn", Exists{sl("q.txt")}), Append: bl(true)}, pr(framed(Read{sl("q.txt")}))}
+		nested["argument-order/data-effect-not-seen-by-path"] = []Stmt{ensure, yn, Write{Path: bin("+", call("yn", Exists{sl("z.txt")}), sl(".txt")), Data: call("ensure", sl("z.txt"))}, pr(Exists{sl("no.txt")}, Exists{sl("yes.txt")}), pr(framed(Read{sl("no.txt")}))}
+		nested["argument-order/flag-effect-last"] = []Stmt{ensure, yn, Write{Path: sl("r.txt"), Data: bin("+", sl("seen "), call("yn", Exists{sl("r.txt")})), Append: Exists{call("ensure", sl("r.txt"))}}, pr(framed(Read{sl("r.txt")}))}
+		nested["argument-order/counter-in-path-and-data"] = []Stmt{nextId, Write{Path: bin("+", sl("item "), call("nextId")), Data: bin("+", sl("payload "), call("nextId"))}, pr(Exists{sl("item 0")}, Exists{sl("item 1")}), pr(framed(Read{sl("item 0")}))}
+		nested["argument-order/read-path-then-index"] = []Stmt{ensure, def("c", Read{call("ensure", sl("m.txt"))}), pr(framed(vr("c"))), pr(Exists{call("ensure", sl("m2.txt"))}, Exists{sl("m2.txt")})}
 		for _, k := range sortedStmtKeys(nested) {
 			// function definitions of a case stay at top level, the rest of its statements move into run()
 			funcs, rest := []Stmt{}, []Stmt{}
